@@ -1,3 +1,4 @@
+-- properties: C04 C11
 /-
   C04 / C11 — the Psion WVE container (stand-alone L1 model SfModel/Wve.lean; helpers SfProofs/WveImage.lean,
   SfProofs/Small2Session.lean).  Property theorems only.
